@@ -393,10 +393,12 @@ pub fn run(run: &mut Run) {
     run.assumptions.push("slack laws of DESIGN C12 (mean |cov-L| <= 0.0015+0.08/n, floor L-(0.45(1-L)+0.015); quantile |cov-L| <= 0.6/sqrt(n q (1-q)), mean <= 0.55/sqrt(n)+0.002), derived from the mathematical Wilson construction, not from the crate".into());
     run.assumptions.push("second law (sharper, computed from the mathematical construction at run time with the harness' own quantile): min coverage >= construction's min - 0.01 and |mean - construction's mean| <= 5e-4".into());
     run.assumptions.push("outcomes for which the crate returns an error count as misses; a grid point within 1e-9 of a bound is evaluated both ways and the favourable value is compared".into());
+    crate::props::history::add(run, "C12", &[crate::props::history::WILSON, crate::props::history::QIDX], 3_000, 200_000);
 }
 
 pub fn replay(sub: &str, v: &Value, obs: &mut Obs) -> Option<PResult> {
     Some(match sub {
+        "history" => crate::props::history::case(&de(v), obs),
         "proportion" => proportion_case(&de(v), obs),
         "quantile" => quantile_case(&de(v), obs),
         "rare" => rare_case(&de(v), obs),
